@@ -46,4 +46,9 @@ TEXT = {
   "note": "Trusts the verif_dump hook for stack/heap sizes and the monitor's own counting of successful next() calls. Programs <= 1500 instructions.",
   "technique": "invariant-at-hook monitor + boundary sweep against an unconstrained twin + metamorphic boundary shift + recovery probes",
  },
+ "C12": {
+  "level": "Exploration: random operation sequences over maps, vectors and strings with keys/elements of every type and hostile indexes are run word by word through eval and compared with an association-list / sequence model; older values are re-checked for value semantics. Maps whose keys have different types are exercised separately (known finding).",
+  "note": "Trusts the harness model (structural equality that never equates values of different types; clamp semantics of slice as pinned by the suite). Collections <= ~60 elements.",
+  "technique": "reference-model monitor (association list / sequence) over random operation histories, with re-checks of every live value",
+ },
 }
